@@ -120,15 +120,16 @@ int printbuf_memset(struct printbuf *pb, int offset, int charvalue, int len)
 	if (offset == -1)
 		offset = pb->bpos;
 	/* Prevent signed integer overflows with large buffers. */
-	if (len < 0 || offset < -1 || len > INT_MAX - offset)
+	if (len < 0 || offset < -1 || len > INT_MAX - 1 - offset)
 	{
 		errno = EFBIG;
 		return -1;
 	}
 	size_needed = offset + len;
-	if (pb->size < size_needed)
+	/* one more byte than the data, so that the buffer stays NUL terminated */
+	if (pb->size <= size_needed)
 	{
-		if (printbuf_extend(pb, size_needed) < 0)
+		if (printbuf_extend(pb, size_needed + 1) < 0)
 			return -1;
 	}
 
@@ -136,7 +137,10 @@ int printbuf_memset(struct printbuf *pb, int offset, int charvalue, int len)
 		memset(pb->buf + pb->bpos, '\0', offset - pb->bpos);
 	memset(pb->buf + offset, charvalue, len);
 	if (pb->bpos < size_needed)
+	{
 		pb->bpos = size_needed;
+		pb->buf[pb->bpos] = '\0';
+	}
 
 	return 0;
 }
